@@ -40,7 +40,8 @@ fn gen(seed: u64, tier: Tier) -> Case {
         k.max_value_size = *r.pick(&[150u32, 200, 300, 500, 1000, 5000]);
         k.max_tx_size = *r.pick(&[600u32, 1024, 2048, 4096, 16384]);
     }
-    let nkeys = *r.pick(&[1u16, 2, 3, 8]);
+    // (23..25 and 60 distinct owners: the witness collections' own array heads cross the 23/24 edge)
+    let nkeys = *r.pick(&[1u16, 2, 3, 8, 8, 24, 25, 60]);
     let byron_pm = *r.pick(&[0u64, 0, 100, 500]);
     let mut w = World { network: r.below(2) as u8, magic: 764824073, scripts: vec![ScriptSpec::Native(Ns::Pk(0))], datums: vec![], utxos: vec![], decoded_scripts: false };
     let n = if tier == Tier::Thorough { *r.pick(&[1usize, 2, 3, 5, 8, 13, 23, 24, 25, 40, 60, 120, 255, 256, 400]) } else { *r.pick(&[1usize, 2, 3, 4, 5, 8, 13, 23, 24, 25, 40, 60]) };
